@@ -206,6 +206,7 @@ TE(P, sc, e) ==
          ELSE LET sd == Struct(P, e.s)
               IN  R([s |-> e.s], (IF sd.foreign /\ ~sd.pub THEN {"nonpublic"} ELSE {}) \cup TNew(P, sc, sd, e.args, 1)))
     ELSE IF e.k = "chain" THEN TE(P, sc, Tree(e.items))
+    ELSE IF e.k = "wenn" THEN (LET c == TE(P, sc, e.c) IN R(TB("W"), c.bad \cup Need(IsB(c.t, "W"), <<c.t>>, "type:cond")))
     ELSE IF e.k = "none" THEN Quiet(NONE)
     ELSE R(ERR, {"unknown-expression"})
 
@@ -227,7 +228,8 @@ CSeq(P, ctx, ss, i) ==
              b == CSeq(P, a.ctx, ss, i + 1)
          IN  X(b.ctx, a.bad \cup b.bad)
 CS(P, ctx, s) ==
-    IF s.k = "var" THEN
+    IF s.k = "setis" THEN CS(P, ctx, [k |-> "set", lv |-> s.lv, e |-> s.e])
+    ELSE IF s.k = "var" THEN
         (LET init == TE(P, ctx.sc, s.e)
              dup == InInnermost(ctx.sc, s.n)
          IN  X([ctx EXCEPT !.sc = Declare(ctx.sc, Var(s.n, s.t, IsConstS(s)))],
